@@ -3,8 +3,8 @@ sys.path.insert(0, os.path.join(os.path.dirname(__file__), '..', 'lib'))
 import std
 import vlib
 
-RACE_ARGS = {'quick': ['-trials', 250, '-casetrials', 0, '-watchdog', 60],
-             'thorough': ['-trials', 6000, '-casetrials', 0, '-watchdog', 120]}
+RACE_ARGS = {'quick': ['-trials', 250, '-casetrials', 0, '-watchdog', 200],
+             'thorough': ['-trials', 6000, '-casetrials', 0, '-watchdog', 600]}
 
 
 def race_step(chk, ok_c):
@@ -18,7 +18,7 @@ def race_step(chk, ok_c):
         chk.broken.append('harness cmd/c06 does not build with -race against the current tree: ' + out.strip()[-300:])
         return
     args = [str(a) for a in RACE_ARGS[chk.tier]] + ['-cases', os.path.join(chk.bdir, 'cases_race')]
-    tmo = 240 if chk.tier == 'quick' else 1500
+    tmo = 600 if chk.tier == 'quick' else 3000
     rc, out = vlib.sh([exe] + args, timeout=tmo, cwd=chk.bdir,
                       env={'VERIF_SEED': str(chk.seed + 7), 'VERIF_TIER': chk.tier, 'CGO_ENABLED': '1',
                            'GORACE': 'halt_on_error=0 exitcode=0 history_size=3'})
@@ -64,8 +64,8 @@ SPEC = {
     'closure_dirs': ['theories/C06', 'theories/Gen/Cache.v'],
     'harness': 'c06',
     'args': {
-        'quick': ['-trials', 2500, '-casetrials', 110],
-        'thorough': ['-trials', 40000, '-casetrials', 1500],
+        'quick': ['-trials', 2500, '-casetrials', 110, '-watchdog', 300],
+        'thorough': ['-trials', 40000, '-casetrials', 1500, '-watchdog', 600],
     },
     'search_args': ['-trials', 20000, '-casetrials', 0],
     'extra': race_step,
